@@ -32,6 +32,7 @@ func zzC04DenseAdd(L int) {
 func ZZ_C04_dense_add_L0() { zzC04DenseAdd(0) }
 func ZZ_C04_dense_add_L1() { zzC04DenseAdd(1) }
 func ZZ_C04_dense_add_L4() { zzC04DenseAdd(4) }
+func ZZ_C04_dense_add_L8_T() { zzC04DenseAdd(8) }
 
 func zzC04DenseMergeDense(Ls, Lo int) {
 	zzvBound("dense merge", "receiver array length in {0,4}, argument in {0,1,3}, all cells symbolic, windows within 12 of each other")
@@ -66,6 +67,7 @@ func ZZ_C04_dense_merge_dense_0_3() { zzC04DenseMergeDense(0, 3) }
 func ZZ_C04_dense_merge_dense_4_0() { zzC04DenseMergeDense(4, 0) }
 func ZZ_C04_dense_merge_dense_4_1() { zzC04DenseMergeDense(4, 1) }
 func ZZ_C04_dense_merge_dense_4_3() { zzC04DenseMergeDense(4, 3) }
+func ZZ_C04_dense_merge_dense_8_4_T() { zzC04DenseMergeDense(8, 4) }
 
 func zzC04DenseCopyClear(L int) {
 	s := zzDenseState("s", L, []int{0, 2, 9}[zzvChoose("staleCells", 3)])
@@ -230,6 +232,7 @@ func zzC04DenseObservers(L int) {
 
 func ZZ_C04_dense_observers_L0() { zzC04DenseObservers(0) }
 func ZZ_C04_dense_observers_L4() { zzC04DenseObservers(4) }
+func ZZ_C04_dense_observers_L8_T() { zzC04DenseObservers(8) }
 
 // A realistic array (>= 64 cells, as the real getNewLength allocates) with the window at an
 // enumerated position inside and the new index at an enumerated distance: exercises small shifts,
